@@ -342,6 +342,11 @@ def hunts(quick, focus, timeout):
             if other == cfg['n_agents']:
                 other += 1
             cfg['reuse_optimizer'] = {'n_agents': other}
+            if i % 3 == 2 and s != 'tree':
+                # the earlier task had the SAME number of agents but two more variables: an array the optimizer kept from it broadcasts
+                # silently against the smaller positions of the observed task
+                cfg['reuse_optimizer'] = {'n_variables': cfg['n_variables'] + 2, 'lb': list(cfg['lb']) + [cfg['lb'][-1]] * 2,
+                                          'ub': list(cfg['ub']) + [cfg['ub'][-1]] * 2}
             cfg['repro'] = False
             out.append(cfg)
     # self-adapting hyperparameters over many iteration counts: a schedule that leaves its setter's guard by one rounding
